@@ -8,7 +8,7 @@ from typing import Dict, List, Optional, Set, Tuple
 from ..core import astutil as A
 from ..core.index import AnalysisError, FuncInfo
 from ..selftest import M
-from .common import T, attr_stores, calls_named, conds, every_origin, facts, need, subscript_stores, where
+from .common import may_conds, is_early_exit_guard, T, attr_stores, calls_named, conds, every_origin, facts, need, subscript_stores, where
 
 INS = "ufo2ft.instantiator"
 I = f"{INS}.Instantiator"
@@ -247,6 +247,14 @@ def r193(prog, chk):
     chk.minimum("R19.3", 7)
 
 
+def _guards_raise(prog, fi, c) -> bool:
+    """c is the test of an `if <test>: raise ...` input check"""
+    for n in A.body_nodes(fi.node):
+        if isinstance(n, ast.If) and n.test is c.test and not n.orelse and n.body and isinstance(n.body[-1], ast.Raise):
+            return c.polarity is False
+    return False
+
+
 # ----------------------------------------------------------------------------- R19.4 / R19.5
 def r194(prog, chk):
     ix = prog.ix
@@ -255,7 +263,7 @@ def r194(prog, chk):
     ok = len(ng) == 1
     if ok:
         lp = [a for a in ix.ancestors(ng[0]) if isinstance(a, ast.For)]
-        ok = len(lp) == 1 and T(lp[0].iter) == "self.glyph_names" and T(ng[0].args[0]) == A.target_names(lp[0].target)[0] and not conds(prog, gi, ng[0])[1:]
+        ok = len(lp) == 1 and T(lp[0].iter) == "self.glyph_names" and T(ng[0].args[0]) == A.target_names(lp[0].target)[0] and not [c_ for c_ in may_conds(prog, gi, ng[0]) if c_.kind != 'for' and not _guards_raise(prog, gi, c_)]
     chk.ob("R19.4", f"{gi.short}|one new glyph per name of the default source, and no other", ok, where(gi), detail="for glyph_name in self.glyph_names: font.newGlyph(glyph_name)",
            message=f"{gi.short}: the instance's glyph set is not exactly the default source's")
     gn = ix.get_method(I, "glyph_names", own=True)
